@@ -523,7 +523,12 @@ func (c *diskCache) availableOrTryProxy(kind cache.EntryKind, hash string, size 
 					c.verifGate("get.drop")
 
 					c.mu.Lock()
-					c.lru.RemoveElement(listElem)
+					// The lock was released since the lookup: only drop the
+					// entry we examined, not one that has been evicted, removed
+					// or replaced by another request in the meantime.
+					if cur, ok := c.lru.cache[key]; ok && cur == listElem && cur.Value.(*entry).value == item {
+						c.lru.RemoveElement(listElem)
+					}
 					c.mu.Unlock()
 				} else {
 					return rc, item.size, false, nil
